@@ -748,6 +748,11 @@ package badger
 //@   assert[table-ends-between-keys] before call ReachedCapacity : !ret(SameKey#2)
 //@   assert[range-ends-between-keys] before call CompareKeys : !ret(SameKey#2) && arg1 == kr.right
 //@   assert[version-of-current] before call ParseTs : called(Value)
+//@   assert[kept-entry-written-as-read] before call Add : arg0 == builder && arg2 == vs && arg3 == vp.Len && !isExpired && !firstKeyHasDiscardSet
+//@   assert[stale-after-discard-marker] before call AddStaleKey#1 : arg0 == builder && arg2 == vs && arg3 == vp.Len && firstKeyHasDiscardSet
+//@   assert[stale-when-expired] before call AddStaleKey#2 : arg0 == builder && arg2 == vs && arg3 == vp.Len && isExpired
+//@   assert[older-versions-skipped-for-same-key-only] before call updateStats#2 : ret(SameKey#1) && len(skipKey) > 0
+//@   assert[dropped-by-prefix-only-when-asked] before call updateStats#1 : len(cd.dropPrefixes) > 0 && ret(hasAnyPrefixes#1)
 
 //@ func (*levelsController).compactBuildTables.keepTable
 //@   props C29
